@@ -1,5 +1,7 @@
-from . import checks_tier
+from . import checks_tier, checks_tg
 
 CHECKS = {}
 for _p in checks_tier.PROPS:
     CHECKS[_p] = checks_tier.check
+CHECKS["C12"] = checks_tg.check_c12
+REPLAYERS = {}
